@@ -697,26 +697,7 @@ def run(ctx, report):
             else:
                 R5.ok(inst, sample='%r: ring of %s positions, count mod ring, complementary shifts' % (op, 'op_size+1' if carry else 'op_size'))
         elif op == 'parity':
-            # x86 PF: parity of the LOW BYTE of the result; the simplifier's fold (expression_helper.parity) is the sibling
-            problems = []
-            calls = [n for n in ast.walk(fn0) if isinstance(n, ast.Call) and isinstance(n.func, ast.Attribute) and u(n.func.value) == 'self' and n.func.attr in methods]
-            tgt = methods.get(calls[0].func.attr) if calls else None
-            sib = hlp.funcs.get('parity')
-            if tgt is None or sib is None:
-                problems.append('parity helper not found')
-            else:
-                if [u(a) for a in calls[0].args] != ['args[0]']:
-                    problems.append('helper is called with %s' % [u(a) for a in calls[0].args])
-                for who, f, skip in (('eval_abs.%s' % tgt.name, tgt, 1), ('expression_helper.parity', sib, 0)):
-                    prm = f.args.args[skip].arg if len(f.args.args) > skip else None
-                    masks = [n for n in ast.walk(f) if isinstance(n, ast.BinOp) and isinstance(n.op, ast.BitAnd) and prm and u(n.left).strip('()') == prm]
-                    if not masks or not (isinstance(masks[0].right, ast.Constant) and masks[0].right.value == 0xFF):
-                        problems.append('%s does not reduce its operand to the low byte (& 0xFF): %s' % (who, u(masks[0]) if masks else 'no mask'))
-            if problems:
-                R5.violation(inst, 'denot:parity:%s' % ';'.join(problems)[:80], 'parity is the x86 PF of the low byte of its operand: %s' % '; '.join(problems), where(ea, tgt or fn0),
-                             witness='parity(r32) with r32 = 0x100 must be 1')
-            else:
-                R5.ok(inst, sample="'parity': eval_abs.parity and expression_helper.parity both count the bits of operand & 0xFF")
+            parity_rule(R5, ea, hlp, methods, fn0, inst)
         elif arith_family(op):
             problems, n_vec = arith_denotation(ea, methods, fn0, op)
             if problems:
@@ -725,6 +706,42 @@ def run(ctx, report):
                 R5.ok(inst, sample='%r: %s agrees with the integer definition on %d boundary vectors (evaluated)' % (op, fn0.name, n_vec))
         else:
             R5.ok(inst + ':not-judged', nontrivial=False)
+
+
+def parity_rule(R5, ea, hlp, methods, fn0=None, inst="denotation 'parity'"):
+    """x86 PF: parity of the LOW BYTE of the operand, in the evaluator (eval_abs.eval_op_parity -> eval_abs.parity) and in the simplifier's
+    constant fold (expression_helper.parity): both functions are evaluated from their source on constants of every width, with bits set above
+    bit 7 (shared with C05: the fold is a rewrite of the simplifier)."""
+    from ..consteval import Evaluator as _Ev, NotConst as _NC, Obj as _Obj, PyRaise as _PR9
+    if fn0 is None:
+        fn0 = methods.get('eval_op_parity')
+        if fn0 is None:
+            raise AnalysisError('eval_abs.eval_op_parity not found')
+    sib = hlp.funcs.get('parity')
+    if sib is None:
+        raise AnalysisError('expression_helper.parity not found')
+    me = _Obj('self')
+    me.__dict__['_methods'] = dict(methods)
+    vals = [0, 1, 3, 7, 0x80, 0xff, 0x100, 0x101, 0x1ff, 0x8001, 0x10000, 0xffff, 0x12345678, 0xffffffff, 0x8000000000000001]
+    problems = []
+    for who, call in (('eval_abs.%s' % fn0.name, lambda v: _Ev({}).call_user(fn0, [me, [v], 32, None])), ('expression_helper.parity', lambda v: _Ev({}).call_user(sib, [v]))):
+        for v in vals:
+            try:
+                got = call(v)
+            except _PR9 as e:
+                problems.append('%s(%#x) raises %s (parity takes one operand)' % (who, v, e))
+                break
+            except _NC as e:
+                raise AnalysisError('%s is outside the statically evaluable subset: %s' % (who, e))
+            want = 1 - bin(v & 0xFF).count('1') % 2
+            if got != want:
+                problems.append('%s(%#x) is %r; the x86 parity flag of the low byte is %d' % (who, v, got, want))
+                break
+    if problems:
+        R5.violation(inst, 'denot:parity:%s' % problems[0].split('(')[0], 'parity is the x86 PF (even parity of the low byte of its operand, whatever the width): %s' % '; '.join(problems),
+                     where(ea if problems[0].startswith('eval_abs') else hlp, fn0 if problems[0].startswith('eval_abs') else sib), witness='parity(0x100) must be 1')
+    else:
+        R5.ok(inst, sample="'parity': eval_abs and expression_helper.parity give the parity of the low byte on %d constants of all widths" % len(vals))
 
 
 def arith_family(op):
@@ -912,7 +929,8 @@ MUTANTS = [
      "        ret_value = args[0] - args[1]\n", 'C06.D1'),
     ('cast-second', 'miasmx/expression/expression_eval_abstract.py', "        cast_int = types_tab[0]\n", "        cast_int = types_tab[-1]\n", 'C06.D4'),
     ('evalid-nolookup', 'miasmx/expression/expression_eval_abstract.py', "        if not e in self.pool:\n            return e\n        return self.pool[e]\n", "        return e\n", 'C06.D4'),
-    ('parity-two', 'miasmx/expression/expression_eval_abstract.py', "        ret_value = self.parity(args[0])\n", "        ret_value = self.parity(args[0] ^ args[1])\n", 'C06.D1'),
+    ('parity-two', 'miasmx/expression/expression_eval_abstract.py', "        ret_value = self.parity(args[0])\n", "        ret_value = self.parity(args[0] ^ args[1])\n", 'C06.D'),
+    ('parity-fold-all-bits', 'miasmx/expression/expression_helper.py', "def parity(a):\n    tmp = (a)&0xFF", "def parity(a):\n    tmp = int(a)", 'C06.D5'),
     ('xor-binary', 'miasmx/expression/expression_eval_abstract.py',
      "    def eval_op_xor(self, args, op_size, cast_int):\n        ret_value = args[0]\n        for a in args[1:]:\n            ret_value = ret_value ^ a\n",
      "    def eval_op_xor(self, args, op_size, cast_int):\n        ret_value = args[0] ^ args[1]\n", 'C06.D2'),
